@@ -286,45 +286,74 @@ def r3_row_ids(run, w):
     fn = w.fn(q)
     cfg = fn.cfg
     du = DefUse(fn)
+    rd = H.ReachDefs(fn, du)
+    ENTRY = H.ReachDefs.ENTRY
     ps = fn.fi.params()
+    p_table, p_rows = ps[1], ps[2]
     tr = [(n, c) for (n, c, nm) in fn.calls() if endswith(nm, "summary.translate_new_row_ids")]
     if len(tr) != 1:
       raise AnalysisError("%s: translate_new_row_ids call not found" % q)
     tn, tc = tr[0]
-    resv = tn.stmt.targets[0].id if isinstance(tn.stmt, ast.Assign) and \
-        isinstance(tn.stmt.targets[0], ast.Name) and tn.stmt.value is tc else None
-    ok = resv is not None and len(tc.args) == 2 and text(tc.args[0]) == ps[1] and \
-        H.unrebound_at(fn, du, ps[1], tn.id) and isinstance(tc.args[1], ast.Name)
-    if ok:
-      # what is translated is the requested ids: the parameter, or a per-element int() copy of it
-      src = tc.args[1].id
-      if src != ps[2]:
-        defs = [cfg.nodes[d] for d in du.rebinders(src)
-                if d != tn.id and tn.id in cfg.reach_after({d})]
-        ok = len(defs) == 1 and isinstance(defs[0].stmt, ast.Assign) and \
-            isinstance(defs[0].stmt.value, ast.ListComp) and \
-            not defs[0].stmt.value.generators[0].ifs and \
-            text(defs[0].stmt.value.generators[0].iter) == ps[2] and \
-            cfg.dominated_by(tn.id, {defs[0].id})
+    try:
+      a_table = H.arg_of(tc, w.repo.func("action_summary.ActionSummary.translate_new_row_ids"),
+                         "table_id")
+      a_rows = H.arg_of(tc, w.repo.func("action_summary.ActionSummary.translate_new_row_ids"),
+                        "row_ids")
+    except AnalysisError:
+      a_table = a_rows = None
+    if a_table is None or a_rows is None:
+      raise AnalysisError("%s: cannot bind the arguments of %s" % (q, short(tc)))
+    # the translation's result is bound to a local (possibly through list(...))
+    resv = None
+    if isinstance(tn.stmt, ast.Assign) and len(tn.stmt.targets) == 1 and \
+        isinstance(tn.stmt.targets[0], ast.Name) and \
+        H.strip_wrappers(tn.stmt.value, ("list", "tuple")) is tc:
+      resv = tn.stmt.targets[0].id
+    if resv is None:
+      raise AnalysisError("%s: the result of %s is not bound to a local" % (q, short(tc)))
+    is_table = lambda e, at: isinstance(H.deref(fn, e), ast.Name) and \
+        H.deref(fn, e).id == p_table and rd.reaching(p_table, at) == {ENTRY}
+    raw_base = lambda x, d: isinstance(x, str) and x == p_rows and d == ENTRY
+    whole = H.whole_of(fn, rd, a_rows, tn.id, raw_base)
+    if whole is None:
+      raise AnalysisError("%s: cannot relate %s to the requested row ids" % (q, short(a_rows)))
     run.ob(R3, q, short(tn.stmt), "all requested row ids are translated with the map of the "
-           "action's own table", ok, fi=fn.fi, node=tn.stmt)
+           "action's own table", is_table(a_table, tn.id) and whole, fi=fn.fi, node=tn.stmt)
     sites = [(n, k, c) for (n, k, c) in _ctor_sites(fn, names, (kind,))
-             if len(c.args) >= 2 and text(c.args[0]) == ps[1] and H.unrebound_at(fn, du, ps[1], n.id)]
-    # the first construction for the action's own table (others, e.g. back-reference clean-up,
-    # name other tables after table_id has been rebound)
+             if H.action_arg(c, names, k, 0) is not None and
+             H.action_arg(c, names, k, 1) is not None and
+             is_table(H.action_arg(c, names, k, 0), n.id)]
+    # the construction for the action's own table (others, e.g. back-reference clean-up, name
+    # other tables)
     if not sites:
       raise AnalysisError("%s: construction of %s(table_id, ...) not found" % (q, kind))
+    tr_base = lambda x, d: isinstance(x, str) and x == resv and d == tn.id
     for (n, k, c) in sites:
-      others = du.rebinders(resv) - {tn.id} if resv else set()
-      stale = [d for d in others if n.id in cfg.reach_after({d}, removed={tn.id})] + \
-          ([] if cfg.dominated_by(n.id, {tn.id}) else [cfg.entry.id])
-      ok = resv is not None and isinstance(c.args[1], ast.Name) and c.args[1].id == resv and \
-          not stale
+      v = H.whole_of(fn, rd, H.action_arg(c, names, k, 1), n.id, tr_base)
       run.ob(R3, q, short(c), "the action is built from the translated ids: the translation "
-             "dominates the construction and is the last binding of the ids that reaches it", ok,
-             fi=fn.fi, node=c,
-             witness=None if ok else "a binding of %s other than the translation reaches the "
-                                     "constructor" % resv)
+             "dominates the construction and is the last binding of the ids that reaches it",
+             v is True, fi=fn.fi, node=c,
+             witness=None if v else "a value other than the result of the translation reaches "
+                                    "the constructor's row ids")
+    # nothing computed from the untranslated ids is used once they have been translated
+    raw = H.taint(fn, du, rd, {(p_rows, ENTRY)}, stop={tn.id})
+    after = cfg.reach_after({tn.id})
+    stale = []
+    for n in cfg.nodes:
+      if n.id not in after or n.stmt is None or n.kind == "assert":
+        continue
+      for e in n.exprs:
+        for x in (ast.walk(e) if e is not None else ()):
+          if isinstance(x, ast.Name) and isinstance(x.ctx, ast.Load) and \
+              any((x.id, d) in raw for d in rd.reaching(x.id, n.id)):
+            stale.append((n, x.id))
+    run.ob(R3, q, "no use of the untranslated ids after %s" % short(tn.stmt, 60),
+           "whatever the action does with its rows after the translation (the doc action, the "
+           "clean-up of references to removed rows, raw-section checks) is done for the rows the "
+           "temporary ids stand for", not stale, fi=fn.fi,
+           node=stale[0][0].stmt if stale else None,
+           witness=("%s, computed from the ids as requested, is read at line %d"
+                    % (stale[0][1], stale[0][0].lineno)) if stale else None)
   # --- the map itself
   up = w.fn("action_summary.ActionSummary.update_new_rows_map")
   tr = w.fn("action_summary.ActionSummary.translate_new_row_ids")
@@ -443,6 +472,30 @@ VARIANTS = [
   ("remove-uses-untranslated-ids", U,
    "    row_ids = self._engine.out_actions.summary.translate_new_row_ids(table_id, row_ids)\n\n    self._do_doc_action(actions.BulkRemoveRecord(table_id, row_ids))",
    "    new_row_ids = self._engine.out_actions.summary.translate_new_row_ids(table_id, row_ids)\n\n    self._do_doc_action(actions.BulkRemoveRecord(table_id, row_ids))",
+   "C26-R3"),
+  ("remove-cleans-up-untranslated-ids", U,
+   """    row_ids = [int(r) for r in row_ids_or_records]
+
+    # Replace negative ids that may refer to rows just added to this table in this bundle.
+    row_ids = self._engine.out_actions.summary.translate_new_row_ids(table_id, row_ids)
+
+    self._do_doc_action(actions.BulkRemoveRecord(table_id, row_ids))
+
+    # Also remove any references to this row from other tables.
+    row_id_set = set(row_ids)
+""",
+   """    row_ids = [int(r) for r in row_ids_or_records]
+    row_id_set = set(row_ids)
+
+    # Replace negative ids that may refer to rows just added to this table in this bundle.
+    row_ids = self._engine.out_actions.summary.translate_new_row_ids(table_id, row_ids)
+    self._do_doc_action(actions.BulkRemoveRecord(table_id, row_ids))
+
+    # Also remove any references to these rows from other tables.
+""", "C26-R3"),
+  ("update-checks-raw-sections-by-requested-ids", U,
+   "    row_ids = self._engine.out_actions.summary.translate_new_row_ids(table_id, row_ids)\n\n    # Convert passed-in values",
+   "    requested_ids = row_ids\n    row_ids = self._engine.out_actions.summary.translate_new_row_ids(table_id, row_ids)\n    self._engine.invalidate_records(table_id, requested_ids)\n\n    # Convert passed-in values",
    "C26-R3"),
   ("translate-drops-unknown-ids", AS,
    "    return [t.temp_row_ids.get(r, r) for r in row_ids]",
